@@ -98,4 +98,9 @@ def k10(drv):
     return any(m['level'] >= 3 for m in s_rstcheck.parse(r['rst']).findall(docutils.nodes.system_message))
 
 
-WITNESSES = {'K10': k10, 'K9': k9, 'K8': k8, 'K1': k1, 'K2': k2, 'K3': k3, 'K5': k5, 'K6': k6, 'K7': k7}
+def k11(drv):
+    import s_cmake
+    return s_cmake.k11_witness(drv)
+
+
+WITNESSES = {'K11': k11, 'K10': k10, 'K9': k9, 'K8': k8, 'K1': k1, 'K2': k2, 'K3': k3, 'K5': k5, 'K6': k6, 'K7': k7}
